@@ -9,6 +9,8 @@
 // cache.  During these script calls a spy in front of the adaptor records every alloc_memory / free_memory call (with
 // nesting): one log line per call on the adaptor - alloc / dealloc / foreign / wbegin .. wend - all carrying `sl`, the
 // index of the script call.  Every execution is closed by an `end` line.
+// `xdealloc k m` releases the k-th buffer with a size m of another class than its own (the script's claim; the Trace
+// specification checks it): the buffer stays live.  Bare: one call, one line; global: through the spy like pdel.
 //   strcache probe <out.ndjson> <maxsize>              one line per size: what a fresh cache does for alloc(s)+dealloc
 //   strcache run <script.tsv> <log.ndjson> <bound>...  script lines: op<TAB>a<TAB>n ; `reset` = fresh cache
 #include "vh.h"
@@ -29,6 +31,7 @@ struct Ev { const char* op; size_t n; long mem, room; std::vector<long> got, ret
 static std::vector<Ev> g_events;
 static std::vector<size_t> g_open;           // indices of the calls that have not returned yet
 static std::set<char*> g_cache_ptrs;         // pointers handed out by the cache / adaptor and not yet released to it
+static char* g_elsewhere = NULL;             // the buffer the current script call releases with a size of another class (`xdealloc`)
 
 class RecordingAllocator : public TestMemoryAllocator
 {
@@ -74,7 +77,7 @@ public:
     {
         g_open.pop_back();
         g_events[idx].warn = g_printed.size() > printed_before;
-        if (g_events.size() > idx + 1 && std::string(g_events[idx].op) == "foreign") {
+        if (g_events.size() > idx + 1 && (std::string(g_events[idx].op) == "foreign" || std::string(g_events[idx].op) == "xdealloc")) {
             // calls arrived while this release was being served: it becomes a bracket around them
             g_events[idx].op = "wbegin";
             Ev e; e.op = "wend"; e.n = g_events[idx].n; e.mem = 0; e.room = 0; e.warn = false;
@@ -96,9 +99,11 @@ public:
     {
         size_t before = g_printed.size();
         bool known = g_cache_ptrs.count(p) != 0;
+        bool elsewhere = known && p == g_elsewhere;      // the script says: a size of another class; the owner keeps the buffer
         long mem = 0, room = 0;
-        if (known) { locate(p, mem, room); g_cache_ptrs.erase(p); }
-        size_t idx = enter(known ? "dealloc" : "foreign", size, mem);
+        if (known) { locate(p, mem, room); if (!elsewhere) g_cache_ptrs.erase(p); }
+        if (elsewhere) g_elsewhere = NULL;
+        size_t idx = enter(elsewhere ? "xdealloc" : known ? "dealloc" : "foreign", size, mem);
         target->free_memory(p, size, f, l);
         leave(idx, before);
     }
@@ -270,6 +275,7 @@ static int process(bool in_body)
             Buf b; b.p = p; b.n = n; b.mem = mem; b.pat = (unsigned char) (0x40 + (bufs.size() * 7) % 0xB0); b.live = true; b.str = NULL;
             memset(p, b.pat, n);          // the owner uses every byte it asked for (ASan watches the bounds)
             if (n) p[n - 1] = 0;          // ... as a terminated string (the unknown-release warning prints the buffer)
+            else if (room > 0) p[0] = 0;  // (a 0-byte request: terminated only if the buffer happens to have room)
             bufs.push_back(b);
         } else if (op == "snew" && global && n > 0) {
             // a SimpleString whose buffer has n bytes: exactly one buffer request through SimpleString's string allocator
@@ -291,6 +297,24 @@ static int process(bool in_body)
             if (b.str) { n = b.str->size() + 1; delete b.str; b.str = NULL; }
             else if (cache) cache->dealloc(b.p, n);
             else global->getAllocator()->free_memory(b.p, n, __FILE__, __LINE__);
+        } else if (op == "xdealloc") {
+            // release with a size of another class than the buffer's own: the cache does not keep the buffer there, the
+            // owner goes on using it (it stays live: its bytes are watched, it can be released properly later)
+            if (a < 1 || (size_t) a > bufs.size() || !bufs[(size_t) a - 1].live || bufs[(size_t) a - 1].str) {
+                fprintf(g_out, "{\"op\":\"harness-error\",\"what\":\"no such buffer\"}\n"); return P_ERROR; }
+            Buf& b = bufs[(size_t) a - 1];
+            mem = b.mem;
+            if (cache) cache->dealloc(b.p, n);
+            else {
+                // under a global cache the printing of the warning is a client of the cache: the spy records its calls
+                composite = true;
+                spy.target = global->getAllocator();
+                SimpleString::setStringAllocator(&spy);
+                g_elsewhere = b.p;
+                spy.free_memory(b.p, n, __FILE__, __LINE__);
+                g_elsewhere = NULL;
+                SimpleString::setStringAllocator(spy.target);
+            }
         } else if (op == "foreign") {
             if (cache) cache->dealloc(g_foreign[a & 3], n);
             else global->getAllocator()->free_memory(g_foreign[a & 3], n, __FILE__, __LINE__);
